@@ -222,6 +222,19 @@ CHECKS = {
         note='Trusted: mc/simtor.py; Tor cannot report a service\'s uploads before answering the command that creates it '
              '(those histories: safety clauses only). Known finding: UPLOADED is matched by directory only (pinned by the '
              'repository\'s tests).'),
+    'C17': dict(
+        engine=E1, design='DESIGN.md section 4 / C17',
+        technique='deviation-bounded fault enumeration at every step of listen() x all valid endpoint configurations on the real '
+                  'TCPHiddenServiceEndpoint (fake reactor, simulated Tor), plus all invalid option combinations',
+        text='19 valid configurations (ephemeral x version None/2/3 x supplied key x single-hop; ephemeral basic-auth; filesystem x '
+             'version x explicit / implicit directory) x {constructor, Tor.create_*_endpoint} x {config object, Deferred} x every '
+             'fault path with <= 1 (quick) / 2 (thorough) deviations over {config Deferred fails, config of the wrong type, local '
+             'bind raises CannotListenError, creating command 5xx, connection lost, every upload FAILED}; 12 invalid combinations '
+             'via the constructor and the onion: string parser. Oracle: one listenTCP(0, interface=127.0.0.1); ADD_ONION Port= / '
+             'HiddenServicePort maps the public port to exactly that local port; listen() unfired before the reply and before '
+             'UPLOADED; getHost() reports Tor\'s service id and the public port; stopListening() closes the listener; on any '
+             'failure listen() errbacks with the injected error and no listener stays open.',
+        note='Trusted: mc/world.py FakeReactor/FakePort, mc/simtor.py, refs/addonion.py, refs/kvline.py.'),
 }
 
 PENDING = {}
